@@ -94,6 +94,8 @@ def handle (l : Line) : IO Unit := do
     let chk := if !underscoreOK num || (a.val == b.val && a.err == b.err) then "ok" else s!"BAD:{fr a}:{fr b}"
     -- the fully mirrored parser (no specification inside) against the real ParseFloat / reader atof
     IO.println s!"obs {id} sl={slm} chk={chk} pfm={fr (parseFloatMirror num)} ram={fr (readerAtofMirror num)}"
+    -- the calls are pure: inputs unchanged, results independent of the caller's buffer afterwards
+    IO.println s!"obs {id} in=kept:stable"
     if l.getD "spec" == "1" then
       let sv := parseFloatSpec num
       let si := parseIntSpec iters
@@ -106,6 +108,7 @@ def handle (l : Line) : IO Unit := do
       IO.println s!"spec {id} impl rd={rdLine si sv true}{kf}"
       IO.println s!"spec {id} strconv val={specF sv} iters={specI si}"
       IO.println s!"spec {id} direct val={specF sv} ratof={specF sv} iters={specI si}"
+      IO.println s!"spec {id} in=kept:stable"
   | "exact" =>
     let mant := (l.nat? "mant").getD 0
     let exp := ((l.getD "exp").toInt?).getD 0
@@ -152,6 +155,12 @@ def handle (l : Line) : IO Unit := do
   | "cheats" =>
     let tab := leftcheats.map fun (d, c) => s!"{d}:{if c.isEmpty then "-" else Bytes.toHex c}"
     IO.println s!"obs {id} n={leftcheats.length} tab={",".intercalate tab}"
+  | "state" =>
+    -- package-level state of bytesconv: optimize = true, powtab, float64info{52, 11, -1023}, the two errors
+    let pt := ",".intercalate (powtab.map toString)
+    let st := s!"opt=1 powtab={pt} info=52:11:-1023 errs={Bytes.toHex (Bytes.ofString "value out of range")}:{Bytes.toHex (Bytes.ofString "invalid syntax")}"
+    IO.println s!"obs {id} {st}"
+    IO.println s!"spec {id} {st}"
   | "table" =>
     let tab := (List.range pow10TableLen).map fun k => F64.toHex (float64pow10 k)
     IO.println s!"obs {id} n={pow10TableLen} tab={",".intercalate tab}"
